@@ -116,7 +116,7 @@ func ownChildren(e *Exchange, access, refresh, email string, groups []string) []
 				out = append(out, c)
 			}
 		case "refresh":
-			if strings.Contains(string(c.ReqBody), "refresh_token="+refresh) {
+			if bq, err := url.ParseQuery(string(c.ReqBody)); err == nil && bq.Get("refresh_token") == refresh {
 				out = append(out, c)
 			}
 		case "profile":
